@@ -15,7 +15,7 @@ Proof.
   destruct (N.compare x y); try reflexivity. apply IH. lia.
 Qed.
 
-Lemma be_length w x : length (be w x) = w.
+Lemma bes_length w x : length (be_spec w x) = w.
 Proof. induction w as [|w IH]; simpl; [reflexivity | rewrite IH; reflexivity]. Qed.
 
 Lemma pow256_pos w : 0 < 256 ^ Z.of_nat w.
@@ -35,10 +35,10 @@ Proof.
   - symmetry. apply (Z.mod_unique (P * q1 + r) P q1 r); [left; lia | lia].
 Qed.
 
-Lemma be_mod w : forall x, be w x = be w (x mod 256 ^ Z.of_nat w).
+Lemma bes_mod w : forall x, be_spec w x = be_spec w (x mod 256 ^ Z.of_nat w).
 Proof.
   induction w as [|w IH]; intro x; [reflexivity|].
-  cbn [be]. pose proof (pow256_pos w) as HP. set (P := 256 ^ Z.of_nat w) in *.
+  cbn [be_spec]. pose proof (pow256_pos w) as HP. set (P := 256 ^ Z.of_nat w) in *.
   assert (E : 256 ^ Z.of_nat (S w) = 256 * P) by (unfold P; rewrite Nat2Z.inj_succ, Z.pow_succ_r by lia; reflexivity).
   rewrite E. destruct (split_digits x P HP) as [D1 D2]. f_equal.
   - f_equal. rewrite D1. symmetry. apply Z.mod_mod. lia.
@@ -49,12 +49,12 @@ Lemma digit_bound x P : 0 < P -> 0 <= x < 256 * P -> 0 <= x / P < 256.
 Proof. intros HP Hx. split; [apply Z.div_pos; lia | apply Z.div_lt_upper_bound; lia]. Qed.
 
 (* big-endian fixed-width encodings compare like the numbers *)
-Lemma be_order w : forall x y, 0 <= x < 256 ^ Z.of_nat w -> 0 <= y < 256 ^ Z.of_nat w ->
-  bcmp (be w x) (be w y) = (x ?= y).
+Lemma bes_order w : forall x y, 0 <= x < 256 ^ Z.of_nat w -> 0 <= y < 256 ^ Z.of_nat w ->
+  bcmp (be_spec w x) (be_spec w y) = (x ?= y).
 Proof.
   induction w as [|w IH]; intros x y Hx Hy.
   - simpl in *. assert (x = 0) by lia. assert (y = 0) by lia. subst. reflexivity.
-  - cbn [be bcmp]. pose proof (pow256_pos w) as HP. set (P := 256 ^ Z.of_nat w) in *.
+  - cbn [be_spec bcmp]. pose proof (pow256_pos w) as HP. set (P := 256 ^ Z.of_nat w) in *.
     assert (E : 256 ^ Z.of_nat (S w) = 256 * P) by (unfold P; rewrite Nat2Z.inj_succ, Z.pow_succ_r by lia; reflexivity).
     rewrite E in Hx, Hy.
     assert (Hqx : 0 <= x / P < 256) by (apply digit_bound; assumption).
@@ -62,7 +62,7 @@ Proof.
     rewrite !(Z.mod_small (_ / P) 256) by assumption.
     rewrite Z2N.inj_compare by lia.
     destruct (x / P ?= y / P) eqn:Eq.
-    + apply Z.compare_eq in Eq. rewrite (be_mod w x), (be_mod w y). fold P.
+    + apply Z.compare_eq in Eq. rewrite (bes_mod w x), (bes_mod w y). fold P.
       rewrite IH by (apply Z.mod_pos_bound; lia).
       pose proof (Z.div_mod x P ltac:(lia)). pose proof (Z.div_mod y P ltac:(lia)).
       destruct (x mod P ?= y mod P) eqn:Er; symmetry.
@@ -76,6 +76,36 @@ Proof.
       pose proof (Z.div_mod x P ltac:(lia)). pose proof (Z.div_mod y P ltac:(lia)).
       pose proof (Z.mod_pos_bound x P HP). pose proof (Z.mod_pos_bound y P HP). nia.
 Qed.
+
+(* the executed encoder computes the specified bytes *)
+Lemma bes_shift w : forall x, be_spec (S w) x = be_spec w (x / 256) ++ [Z.to_N (x mod 256)].
+Proof.
+  induction w as [|w IH]; intro x.
+  - cbn [be_spec app]. rewrite Z.pow_0_r, Z.div_1_r. reflexivity.
+  - change (be_spec (S (S w)) x) with (Z.to_N ((x / 256 ^ Z.of_nat (S w)) mod 256) :: be_spec (S w) x).
+    rewrite IH. change (be_spec (S w) (x / 256)) with (Z.to_N ((x / 256 / 256 ^ Z.of_nat w) mod 256) :: be_spec w (x / 256)).
+    cbn [app]. f_equal. f_equal. f_equal.
+    pose proof (pow256_pos w). rewrite Z.div_div by lia.
+    rewrite Nat2Z.inj_succ, Z.pow_succ_r by lia. reflexivity.
+Qed.
+
+Lemma be_acc_spec w : forall x acc, be_acc w x acc = be_spec w x ++ acc.
+Proof.
+  induction w as [|w IH]; intros x acc; [reflexivity|].
+  cbn [be_acc]. rewrite IH, bes_shift, <- app_assoc. reflexivity.
+Qed.
+
+Lemma be_eq w x : be w x = be_spec w x.
+Proof. unfold be. rewrite be_acc_spec, app_nil_r. reflexivity. Qed.
+
+Lemma be_length w x : length (be w x) = w.
+Proof. rewrite be_eq. apply bes_length. Qed.
+Lemma be_mod w x : be w x = be w (x mod 256 ^ Z.of_nat w).
+Proof. rewrite !be_eq. apply bes_mod. Qed.
+Lemma be_order w x y : 0 <= x < 256 ^ Z.of_nat w -> 0 <= y < 256 ^ Z.of_nat w ->
+  bcmp (be w x) (be w y) = (x ?= y).
+Proof. rewrite !be_eq. apply bes_order. Qed.
+
 
 (* two transfers of one chain and token: their store keys compare like (fee, id) *)
 Lemma pool_key_order x y :
